@@ -129,4 +129,117 @@ theorem sem_same (dim : Int → Nat) (opn intl : List Int) (ts : List (Option In
       exact ((pinsOK_iff _ _).mp hok).2 p q hpl hql (by rw [hp, hq])
     · rw [if_neg hok]
 
+/-! ### one step of the join loop, on networks -/
+
+theorem WF0.bondDim_of_leg {net : Net} (h : WF0 net) {l : Int} {d : Nat} (hp : (l, d) ∈ legDims net) :
+    bondDim net l = d := by
+  obtain ⟨d', h1, h2⟩ := lookup_of_mem hp
+  have := h.dims _ hp _ h2 rfl
+  simp only at this
+  simp [bondDim, h1, this]
+
+/-- every bond has a leg on some tensor -/
+theorem WF0.exists_leg {net : Net} (h : WF0 net) {l : Int} (hl : l ∈ dkeys net.bonds) : ∃ d, (l, d) ∈ legDims net := by
+  obtain ⟨B, hB⟩ := exists_mem_of_mem_dkeys hl
+  have hlen := h.blen _ hB
+  simp only at hlen
+  obtain ⟨t, ht⟩ := List.exists_mem_of_length_pos (by omega : 0 < B.tids.length)
+  obtain ⟨T, hT⟩ := h.tensor_of_ref (dget_of_mem h.bnodup hB) ht
+  have hm := mem_of_dget_eq_some _ hT
+  have hc : 0 < T.bids.count l := by
+    rw [← h.mult hT (dget_of_mem h.bnodup hB)]
+    exact List.count_pos_iff.mpr ht
+  obtain ⟨ax, hax, he⟩ := List.getElem_of_mem (List.count_pos_iff.mp hc)
+  have hsh : T.shape.length = T.bids.length := h.tshape _ hm
+  have hax' : ax < T.shape.length := by omega
+  exact ⟨T.shape[ax], mem_legDims (e := (t, T)) hm (ax := ax)
+    (by show T.bids[ax]? = some l; rw [List.getElem?_eq_getElem hax, he])
+    (by show T.shape[ax]? = some T.shape[ax]; exact List.getElem?_eq_getElem hax')⟩
+
+theorem realTs_relTensors (ρ : Int → Int) (ts : List (Int × STensor)) (bs bs' : List (Int × SBond)) :
+    realTs ⟨relTensors ρ ts, bs'⟩ = relabelTs ρ (realTs ⟨ts, bs⟩) := by
+  simp only [realTs, realTensors, relTensors, relabelTs, List.filter_map, List.map_map]
+  rfl
+
+theorem joinStep_full {S : List Nat} {orig : Nat} {st st' : Net × List Nat} {ja : Nat × Nat} (h : JInv S st.1)
+    (hdim : S[ja.1]? = S[orig + ja.2]?) (hok : joinStep orig st ja = .ok st') (D : Option Int → List Nat → α)
+    (z : List Nat) :
+    full st'.1 D z = if z[ja.1]? == z[orig + ja.2]? then full st.1 D z else 0 := by
+  have hinv' := joinStep_inv h hdim hok
+  obtain ⟨toa, b1, b2, hv, hb1, hb2, hm, _⟩ := joinStep_ok hok
+  have hw := h.1
+  by_cases hb : b1 = b2
+  · subst hb
+    rw [mergeBonds_eq] at hm
+    simp only [beq_self_eq_true, if_true] at hm
+    rw [← Except.ok.inj hm, full_eq_sem _ D z hv]
+    exact sem_same _ _ _ _ D z b1 _ _ hb1 hb2
+  · obtain ⟨B1, B2, hB1, hB2, heq⟩ := mergeBonds_spec hw.toWF0 hb hm
+    have hw' := hinv'.1
+    rw [heq] at hw' ⊢
+    have hv' : dget (relTensors (rep b2 b1) st.1.tensors) (-1) = some { toa with bids := toa.bids.map (rep b2 b1) } := by
+      rw [dget_relTensors, hv]; rfl
+    rw [full_eq_sem _ D z hv', full_eq_sem _ D z hv]
+    have hreal : realTs ⟨relTensors (rep b2 b1) st.1.tensors, dmodify (dpop st.1.bonds b2) b1 (fun b => catBond b B2)⟩
+        = relabelTs (rep b2 b1) (realTs st.1) := realTs_relTensors _ _ st.1.bonds _
+    have hb1m : b1 ∈ toa.bids := List.mem_of_getElem? hb1
+    have hb2m : b2 ∈ toa.bids := List.mem_of_getElem? hb2
+    have hint : internalBids ⟨relTensors (rep b2 b1) st.1.tensors, dmodify (dpop st.1.bonds b2) b1 (fun b => catBond b B2)⟩
+        { toa with bids := toa.bids.map (rep b2 b1) } = internalBids st.1 toa := by
+      simp only [internalBids, dkeys_dmodify, dkeys_dpop, List.filter_filter]
+      apply List.filter_congr
+      intro x _
+      rw [Bool.eq_iff_iff]
+      simp only [Bool.and_eq_true, Bool.not_eq_true', bne_iff_ne, ne_eq, List.contains_eq_mem, decide_eq_false_iff_not,
+        List.mem_map, not_exists, not_and]
+      constructor
+      · rintro ⟨h1, h2⟩ hx
+        exact h1 x hx (rep_of_ne h2)
+      · intro hx
+        refine ⟨fun y hy hyx => ?_, fun e => hx (e ▸ hb2m)⟩
+        by_cases hyb : y = b2
+        · subst hyb; rw [rep_self] at hyx; exact hx (hyx ▸ hb1m)
+        · rw [rep_of_ne hyb] at hyx; exact hx (hyx ▸ hy)
+    have hintl : ∀ l ∈ internalBids st.1 toa, l ≠ b1 ∧ l ≠ b2 := by
+      intro l hl
+      have : l ∉ toa.bids := by
+        simp only [internalBids, List.mem_filter, Bool.not_eq_true', List.contains_eq_mem, decide_eq_false_iff_not] at hl
+        exact hl.2
+      exact ⟨fun e => this (e ▸ hb1m), fun e => this (e ▸ hb2m)⟩
+    have hd : ∀ l ∈ internalBids st.1 toa,
+        bondDim ⟨relTensors (rep b2 b1) st.1.tensors, dmodify (dpop st.1.bonds b2) b1 (fun b => catBond b B2)⟩ l
+          = bondDim st.1 l := by
+      intro l hl
+      have hlk : l ∈ dkeys st.1.bonds := by
+        simp only [internalBids, List.mem_filter] at hl; exact hl.1
+      obtain ⟨d, hd⟩ := hw.toWF0.exists_leg hlk
+      rw [hw.toWF0.bondDim_of_leg hd]
+      apply hw'.toWF0.bondDim_of_leg
+      have := legDims_relB (rep b2 b1) st.1.tensors st.1.bonds (dmodify (dpop st.1.bonds b2) b1 (fun b => catBond b B2))
+      rw [show relTensors (rep b2 b1) st.1.tensors = st.1.tensors.map (fun e => (e.1, { e.2 with bids := e.2.bids.map (rep b2 b1) })) from rfl, this]
+      refine List.mem_map.mpr ⟨(l, d), hd, ?_⟩
+      simp only [rep_of_ne (hintl l hl).2]
+    rw [hreal, hint]
+    rw [sem_congr D z (List.Perm.refl _) (List.Perm.refl _) hd]
+    exact sem_fuse (bondDim st.1) toa.bids (internalBids st.1 toa) (realTs st.1) D z b1 b2 _ _ hb1 hb2 hintl
+
+/-- the whole join loop multiplies the value by the indicator of all joins -/
+theorem join_fold_full {S : List Nat} {orig : Nat} {joinN : List (Nat × Nat)} {st st' : Net × List Nat}
+    (h : JInv S st.1) (hdim : ∀ ja ∈ joinN, S[ja.1]? = S[orig + ja.2]?)
+    (hf : joinN.foldlM (joinStep orig) st = .ok st') (D : Option Int → List Nat → α) (z : List Nat) :
+    full st'.1 D z = if (joinN.all fun ja => z[ja.1]? == z[orig + ja.2]?) then full st.1 D z else 0 := by
+  induction joinN generalizing st with
+  | nil =>
+    have := foldlM_nil_ok _ _ _ hf
+    subst this
+    simp
+  | cons ja js ih =>
+    obtain ⟨s1, hs, hrest⟩ := foldlM_cons_ok _ _ _ _ _ hf
+    have h1 := joinStep_inv h (hdim ja List.mem_cons_self) hs
+    rw [ih h1 (fun x hx => hdim x (List.mem_cons_of_mem _ hx)) hrest,
+      joinStep_full h (hdim ja List.mem_cons_self) hs D z]
+    simp only [List.all_cons, Bool.and_eq_true]
+    by_cases c1 : (z[ja.1]? == z[orig + ja.2]?) = true <;>
+      by_cases c2 : (js.all fun ja => z[ja.1]? == z[orig + ja.2]?) = true <;> simp [c1, c2]
+
 end Qib.TNet
